@@ -10,7 +10,8 @@ from ..probe import read
 
 ID = "C11"
 TITLE = "Variance, standard error and margin of error of proportions"
-TEMPLATES = [t for t in cases.TEMPLATES_1D + cases.TEMPLATES_2D + cases.TEMPLATES_3D]
+TEMPLATES = [t for t in cases.TEMPLATES_1D + cases.TEMPLATES_2D + cases.TEMPLATES_3D] + [
+    "cat_date", "cat_date", "cat"]
 RULE = (
     "W1 synthetic surveys over %d templates x weighting x {none, sum, sum+difference "
     "insertions with disjoint addend/subtrahend sets}. Expected variance = weighted variance, "
@@ -63,6 +64,10 @@ def make_case(unit):
     if ins != "none":
         cases.attach_insertions(g, facets, transforms, allow_diff=(ins == "diff"),
                                 disjoint=True, hide_some=False)
+    if template == "cat_date" and g.chance(0.7):
+        from .c04 import _date_diffs
+
+        _date_diffs(g, facets, transforms)  # one-minus-one and several-term wave differences
     if wmode == "float" and g.chance(0.85):
         cases.add_total_subtotals(facets, transforms)
     spec = sim.CubeSpec(facets, g.weights(N, wmode),
@@ -179,7 +184,10 @@ def _strand(res, L, part, positive):
             s = subs[e + len(subs)]
             el = ("sub", tuple(s["addends"]), tuple(s["subtrahends"]))
             d = bool(s["subtrahends"])
-        skip.append(d and (is_date or vc))
+        # a one-minus-one wave difference of a strand is p1 - p2 on one common base: the
+        # indicator variance applies; several-term date differences have no proportion (C04)
+        one_one = d and len(s["addends"]) == 1 and len(s["subtrahends"]) == 1
+        skip.append(d and (vc or (is_date and not one_one)))
         bm = o.mask({0: o._first_base(el)}, (0,))
         w = o.w[bm]
         W = float(w.sum())
